@@ -444,16 +444,43 @@ def parseUnknowns (ko : KeyOps) (isV2 : Bool) : GState → List KV → Option GS
         | some n => parseUnknowns ko isV2 { g with nout := some n } r
       else parseUnknowns ko isV2 { g with unknown := g.unknown ++ [(k, v)] } r
 
-def readScopes {α : Type} (f : List KV → Option α) : Nat → Parser (List α)
-  | 0 => fun b => some ([], b)
-  | n+1 => fun b =>
+/-- scopes are seeded with the unsigned transaction's inputs / outputs (v0 only) -/
+def seedIn (tx : Option Tx) (i : Nat) : InScope :=
+  match tx with
+  | some t => match t.vin[i]? with
+    | some vi => { txid := some vi.txid, vout := some vi.vout, sequence := some vi.sequence }
+    | none => {}
+  | none => {}
+
+def seedOut (tx : Option Tx) (i : Nat) : OutScope :=
+  match tx with
+  | some t => match t.vout[i]? with
+    | some vo => { value := some vo.value, spk := some vo.spk }
+    | none => {}
+  | none => {}
+
+/-- `n` input scopes starting with scope number `i` -/
+def readIns (ko : KeyOps) (sha : Bytes → Bytes) (compress : Nat) (tx : Option Tx) : Nat → Nat → Parser (List InScope)
+  | 0, _ => fun b => some ([], b)
+  | n+1, i => fun b =>
     match readKVs b with
     | none => none
     | some (kvs, r) =>
-      match f kvs with
+      match InScope.addPairs ko sha compress (seedIn tx i) kvs with
       | none => none
-      | some s =>
-        match readScopes f n r with
+      | some s => match readIns ko sha compress tx n (i+1) r with
+        | none => none
+        | some (ss, r') => some (s :: ss, r')
+
+def readOuts (ko : KeyOps) (tx : Option Tx) : Nat → Nat → Parser (List OutScope)
+  | 0, _ => fun b => some ([], b)
+  | n+1, i => fun b =>
+    match readKVs b with
+    | none => none
+    | some (kvs, r) =>
+      match OutScope.addPairs ko (seedOut tx i) kvs with
+      | none => none
+      | some s => match readOuts ko tx n (i+1) r with
         | none => none
         | some (ss, r') => some (s :: ss, r')
 
@@ -482,43 +509,10 @@ def Psbt.parse (ko : KeyOps) (sha : Bytes → Bytes) (compress : Nat) (b : Bytes
         | some g =>
           match g.nin, g.nout with
           | some nin, some nout =>
-            -- scopes are seeded with the unsigned transaction's inputs / outputs (v0)
-            let seedIn : Nat → InScope := fun i => match tx with
-              | some t => match t.vin[i]? with
-                | some vi => { txid := some vi.txid, vout := some vi.vout, sequence := some vi.sequence }
-                | none => {}
-              | none => {}
-            let seedOut : Nat → OutScope := fun i => match tx with
-              | some t => match t.vout[i]? with
-                | some vo => { value := some vo.value, spk := some vo.spk }
-                | none => {}
-              | none => {}
-            let rec readIns : Nat → Nat → Parser (List InScope)
-              | 0, _ => fun b => some ([], b)
-              | n+1, i => fun b =>
-                match readKVs b with
-                | none => none
-                | some (kvs, r) =>
-                  match InScope.addPairs ko sha compress (seedIn i) kvs with
-                  | none => none
-                  | some s => match readIns n (i+1) r with
-                    | none => none
-                    | some (ss, r') => some (s :: ss, r')
-            let rec readOuts : Nat → Nat → Parser (List OutScope)
-              | 0, _ => fun b => some ([], b)
-              | n+1, i => fun b =>
-                match readKVs b with
-                | none => none
-                | some (kvs, r) =>
-                  match OutScope.addPairs ko (seedOut i) kvs with
-                  | none => none
-                  | some s => match readOuts n (i+1) r with
-                    | none => none
-                    | some (ss, r') => some (s :: ss, r')
-            match readIns nin 0 r1 with
+            match readIns ko sha compress tx nin 0 r1 with
             | none => none
             | some (ins, r2) =>
-              match readOuts nout 0 r2 with
+              match readOuts ko tx nout 0 r2 with
               | none => none
               | some (outs, r3) =>
                 if !r3.isEmpty then none else
@@ -526,21 +520,23 @@ def Psbt.parse (ko : KeyOps) (sha : Bytes → Bytes) (compress : Nat) (b : Bytes
                        unknown := g.unknown, inputs := ins, outputs := outs }
           | _, _ => none
 
+/-- the global scope `PSBT.write_to` emits -/
+def Psbt.globalPairs (p : Psbt) : Option (List KV) :=
+  let isV2 := p.version == some 2
+  (if !isV2 then (p.tx.map fun t => [(([0x00] : Bytes), Tx.ser t)]) else some [])
+  |>.map fun txp =>
+    txp
+    ++ p.xpubs.map (fun (x, d) => (0x01 :: x, Deriv.ser d))
+    ++ (if isV2 then
+          optKV [0x02] (p.txVersion.map (leN 4)) ++ optKV [0x03] (p.locktime.map (leN 4))
+          ++ [([0x04], Compact.enc p.inputs.length), ([0x05], Compact.enc p.outputs.length)]
+        else [])
+    ++ optKV [0xfb] (p.version.map (leN 4))
+    ++ p.unknown
+
 /-- `PSBT.write_to` -/
 def Psbt.ser (p : Psbt) : Option Bytes :=
-  let isV2 := p.version == some 2
-  let globalPairs : Option (List KV) :=
-    (if !isV2 then (p.tx.map fun t => [(([0x00] : Bytes), Tx.ser t)]) else some [])
-    |>.map fun txp =>
-      txp
-      ++ p.xpubs.map (fun (x, d) => (0x01 :: x, Deriv.ser d))
-      ++ (if isV2 then
-            optKV [0x02] (p.txVersion.map (leN 4)) ++ optKV [0x03] (p.locktime.map (leN 4))
-            ++ [([0x04], Compact.enc p.inputs.length), ([0x05], Compact.enc p.outputs.length)]
-          else [])
-      ++ optKV [0xfb] (p.version.map (leN 4))
-      ++ p.unknown
-  match globalPairs with
+  match p.globalPairs with
   | none => none
   | some gp =>
     some (psbtMagic ++ writeKVs gp
